@@ -2,10 +2,12 @@ import Rink.Driver.Alloc
 import Rink.Driver.Eval
 import Rink.Driver.Sandbox
 import Rink.Driver.Digits
+import Rink.Driver.Expr
 
 def main (args : List String) : IO UInt32 := do
   match args with
   | ["alloc"] => Rink.Driver.Alloc.main; return 0
+  | ["expr"] => Rink.Driver.Expr.main; return 0
   | ["digits"] => Rink.Driver.Digits.main; return 0
   | ["sandbox"] => Rink.Driver.Sandbox.main; return 0
   | ["eval", dump] => Rink.Driver.Eval.main dump; return 0
